@@ -168,6 +168,29 @@ func ruleHistoryBuffer(c *Ctx) {
 	def, ok := constIntObj(P.obj(rs, "defaultFlushCount"))
 	c.Check(ok && def == 100, rule, "defaultFlushCount", "== 100 (the index survives a restart within 100 records)", P.pos(P.obj(rs, "defaultFlushCount").Pos()), fmt.Sprint(def))
 	c.need(rule, rec, "call persist", instrCallMatcher(persist), []Ev{guardRel("flushCount <= 0", "<= <", loadOfField(flush), isConstInt(0))}, all, "the index is persisted when the flush counter is used up")
+	// the re-arm value: the constant itself, or a field of the buffer that only ever holds that constant
+	isDef := func(v ssa.Value) bool {
+		if isConstInt(def)(v) {
+			return true
+		}
+		f := loadedField(v)
+		if f == nil || f == flush {
+			return false
+		}
+		n := 0
+		for _, fn := range P.Funcs {
+			if fnPkgPath(fn) != modPath+"/"+rs {
+				continue
+			}
+			for _, st := range storesToField(fn, f) {
+				n++
+				if !isConstInt(def)(st.Val) {
+					return false
+				}
+			}
+		}
+		return n > 0
+	}
 	// every return of Record: index incremented, flushCount decremented; after persist the counter is re-armed
 	inc := &calledEv{name: "index++", match: func(x ssa.Instruction) bool {
 		st, ok := x.(*ssa.Store)
@@ -188,7 +211,7 @@ func ruleHistoryBuffer(c *Ctx) {
 	persisted := &calledEv{name: "persist()", match: instrCallMatcher(persist)}
 	rearmed := &calledEv{name: "flushCount = defaultFlushCount", match: func(x ssa.Instruction) bool {
 		st, ok := x.(*ssa.Store)
-		return ok && fieldOfAddr(st.Addr) == flush && isConstInt(def)(st.Val)
+		return ok && fieldOfAddr(st.Addr) == flush && isDef(st.Val)
 	}, reset: instrCallMatcher(persist)}
 	exhausted := guardRel("flushCount <= 0", "<= <", loadOfField(flush), isConstInt(0))
 	c.need(rule, rec, "return", func(x ssa.Instruction) bool { _, ok := x.(*ssa.Return); return ok }, []Ev{inc, dec, persisted, rearmed, exhausted}, func(h []bool) bool {
@@ -474,5 +497,6 @@ func init() {
 		c.Group("C16/leader-placeholder", "a leaderless region is sent with an empty peer in its slot", func() { ruleLeaderPlaceholder(c) })
 		c.Group("C16/history", "change-log buffer: fields under its lock; index++ and flush accounting on every record, persisted every defaultFlushCount=100; RecordsFrom answers only inside the window and returns a copy", func() { ruleHistoryBuffer(c); ruleHistoryReset(c) })
 		c.Group("C16/follower-apply", "the follower records a region only after put+save, indexes leaders/stats only under length guards, re-bases on index mismatch", func() { ruleFollowerApply(c); rulePerRegionLeader(c); ruleSyncMessageLimit(c) })
+		c.Group("C16/staleness-atoms", "(shared with C06) synced regions carry no raft term: the precheck the follower applies them through compares terms only when the incoming region reports one", func() { ruleStalenessAtoms(c) })
 	})
 }
